@@ -90,6 +90,7 @@ type In struct {
 	// session
 	Paths []Path `json:"paths"`
 	World int    `json:"world"` // sessions with the same world share accounts, registry and lease numbers
+	Burst bool   `json:"burst"` // stream storm: request k of every burst session is fired at the same instant
 	// seq
 	Steps []Step `json:"steps"`
 }
@@ -284,7 +285,7 @@ func (c *client) do(r request) (res result) {
 	c.mu.Lock()
 	from := c.last
 	c.mu.Unlock()
-	reason, ok := c.g.errs.wait(from, 15*time.Second)
+	reason, ok := c.g.errs.wait(from, 90*time.Second)
 	if !ok {
 		res.err = "request failed but the server reported no handshake error: " + rerr.Error()
 		return
@@ -294,7 +295,7 @@ func (c *client) do(r request) (res result) {
 }
 
 func (c *client) doHTTP(r request) (int, bool, error) {
-	cl := &http.Client{Transport: c.tr, Timeout: 30 * time.Second,
+	cl := &http.Client{Transport: c.tr, Timeout: 240 * time.Second,
 		CheckRedirect: func(*http.Request, []*http.Request) error { return http.ErrUseLastResponse }}
 	var body io.Reader
 	if r.body != "" {
@@ -318,7 +319,7 @@ func (c *client) doHTTP(r request) (int, bool, error) {
 }
 
 func (c *client) doWS(r request) (int, bool, error) {
-	d := websocket.Dialer{TLSClientConfig: c.wcfg, HandshakeTimeout: 30 * time.Second, NetDialContext: c.dial}
+	d := websocket.Dialer{TLSClientConfig: c.wcfg, HandshakeTimeout: 240 * time.Second, NetDialContext: c.dial}
 	h := http.Header{}
 	for k, v := range r.header {
 		h.Set(k, v)
@@ -331,7 +332,7 @@ func (c *client) doWS(r request) (int, bool, error) {
 		return 0, false, err
 	}
 	defer conn.Close()
-	_ = conn.SetReadDeadline(time.Now().Add(30 * time.Second))
+	_ = conn.SetReadDeadline(time.Now().Add(240 * time.Second))
 	for {
 		if _, _, err := conn.ReadMessage(); err != nil {
 			break // the handler closes the stream once the (scripted) back end has answered
@@ -589,6 +590,131 @@ func (g *gateway) runSession(ch *chain, seed int64, n int, in In, ri rawIn, emit
 	}
 }
 
+type job struct {
+	in In
+	ri rawIn
+}
+
+// runBursts: the stream storm. Round k: every burst session opens a TLS connection of its own (full handshake with its
+// certificate), all of them wait at a barrier, and then all send request k -- a real websocket upgrade on a streaming
+// route -- at the same instant over the connections they hold. Different authenticated accounts are thus inside the
+// same handler at the same time. Every connection has a collector of its own, so each back-end call is attributed to
+// the very stream (and account) it was made for. Event driven: WaitGroup + channel close, no sleeps.
+func (g *gateway) runBursts(ch *chain, seed int64, bursts []job, emit func(Out)) {
+	type bsess struct {
+		j     job
+		w     *world
+		chain [][]byte
+		priv  *ecdsa.PrivateKey
+		probe Out
+	}
+	var ss []*bsess
+	rounds := 0
+	for n, j := range bursts {
+		w, chain, priv, col, err := g.setup(ch, seed, j.in)
+		if err != nil {
+			emit(Out{Kind: "case", I: j.in.I, Cert: j.ri.Cert, Reg: j.ri.Reg, Served: []Call{}, Session: n + 1, Err: err.Error()})
+			continue
+		}
+		g.back.unregister(col) // attribution is per connection here
+		b := &bsess{j: j, w: w, chain: chain, priv: priv}
+		g.vpc(chain, &b.probe)
+		ss = append(ss, b)
+		if len(j.in.Paths) > rounds {
+			rounds = len(j.in.Paths)
+		}
+	}
+	for k := 0; k < rounds; k++ {
+		var ready, done sync.WaitGroup
+		start := make(chan struct{})
+		for n, b := range ss {
+			if k >= len(b.j.in.Paths) {
+				continue
+			}
+			ready.Add(1)
+			done.Add(1)
+			go func(n int, b *bsess) {
+				defer done.Done()
+				out := Out{Kind: "case", I: b.j.in.I + k, Cert: b.j.ri.Cert, Reg: b.j.ri.Reg, Path: b.j.ri.Paths[k], Served: []Call{},
+					Session: 100000 + n, Vpc: b.probe.Vpc, VpcErr: b.probe.VpcErr}
+				col := g.back.register()
+				defer g.back.unregister(col)
+				c := g.newClient(col, b.chain, b.priv, false, nil)
+				req, rerr := b.w.request(b.j.in.Paths[k], g.provider)
+				var conn net.Conn
+				var derr error
+				if rerr == nil {
+					var raw net.Conn
+					if raw, derr = c.dial(context.Background(), "tcp", g.addr); derr == nil {
+						tc := tls.Client(raw, c.wcfg)
+						if derr = tc.Handshake(); derr == nil {
+							conn = tc
+						} else {
+							_ = raw.Close()
+						}
+					}
+				}
+				ready.Done()
+				<-start
+				switch {
+				case rerr != nil:
+					out.Err = rerr.Error()
+				case !req.ws:
+					out.Err = "burst sessions carry streaming routes only"
+				case derr != nil:
+					out.Err = "burst dial: " + derr.Error()
+				default:
+					out.URL = req.method + " " + req.path
+					res := c.doOver(conn, req)
+					out.Tls, out.TlsErr, out.Status, out.Err = res.tls, res.tlsErr, res.status, res.err
+					for _, rc := range col.take() {
+						out.Served = append(out.Served, b.w.project(rc, g.provider))
+					}
+				}
+				if conn != nil {
+					_ = conn.Close()
+				}
+				emit(out)
+			}(n, b)
+		}
+		ready.Wait()
+		close(start)
+		done.Wait()
+	}
+}
+
+// doOver sends a websocket upgrade over an already established TLS connection.
+func (c *client) doOver(conn net.Conn, r request) (res result) {
+	d := websocket.Dialer{HandshakeTimeout: 240 * time.Second,
+		NetDialContext: func(context.Context, string, string) (net.Conn, error) { return conn, nil }}
+	h := http.Header{}
+	for k, v := range r.header {
+		h.Set(k, v)
+	}
+	ws, resp, err := d.Dial("ws://"+c.g.addr+r.path, h) // "ws": gorilla does not wrap the connection we hand it
+	if err != nil {
+		if resp != nil {
+			res.tls, res.status = true, resp.StatusCode
+			return
+		}
+		reason, ok := c.g.errs.wait(conn.LocalAddr().String(), 90*time.Second)
+		if !ok {
+			res.err = "stream failed but the server reported no handshake error: " + err.Error()
+			return
+		}
+		res.tlsErr = reason
+		return
+	}
+	res.tls, res.status = true, resp.StatusCode
+	_ = ws.SetReadDeadline(time.Now().Add(240 * time.Second))
+	for {
+		if _, _, err := ws.ReadMessage(); err != nil {
+			break
+		}
+	}
+	return
+}
+
 // Main: vh gateway run -cases <ndjson> -out <ndjson> [-seed N] [-workers W]
 func Main(args []string) int {
 	if len(args) < 1 || args[0] != "run" {
@@ -644,11 +770,7 @@ func Main(args []string) int {
 		}
 	}
 
-	type job struct {
-		in In
-		ri rawIn
-	}
-	var single, sessions []job
+	var single, sessions, bursts []job
 	for n, raw := range lines {
 		in, ri, err := decode(raw)
 		if err != nil {
@@ -659,7 +781,11 @@ func Main(args []string) int {
 		case "case", "resume", "seq":
 			single = append(single, job{in, ri})
 		case "session":
-			sessions = append(sessions, job{in, ri})
+			if in.Burst {
+				bursts = append(bursts, job{in, ri})
+			} else {
+				sessions = append(sessions, job{in, ri})
+			}
 		default:
 			fmt.Fprintf(os.Stderr, "gatewayh: input line %d: unknown kind %q\n", n+1, in.Kind)
 			return 2
@@ -704,7 +830,7 @@ func Main(args []string) int {
 
 	// phase 2: free running, all sessions against ONE gateway, `workers` of them at any time
 	orphans := 0
-	if len(sessions) > 0 {
+	if len(sessions)+len(bursts) > 0 {
 		g, err := newGateway(ch, 1000)
 		if err != nil {
 			fmt.Fprintln(os.Stderr, "gatewayh:", err)
@@ -722,6 +848,7 @@ func Main(args []string) int {
 			}(n, j)
 		}
 		wg.Wait()
+		g.runBursts(ch, *seed, bursts, emit)
 		// calls nobody can account for (unknown owner, or arrived when their owner had no request in flight)
 		for _, rc := range g.back.takeOrphans() {
 			orphans++
